@@ -107,8 +107,13 @@ func faultOf(o *c06.Op) string {
 	return o.Fault
 }
 
+// raw: the op bypasses the cache (the clock is shared: an Advance never does)
+func isRaw(o *c06.Op) bool { return o.Raw && o.Op != "Advance" }
+
 func coqFault(f string) string {
 	switch {
+	case f == "raw":
+		return "FRaw"
 	case f == "before":
 		return "FErrBefore"
 	case f == "after":
@@ -147,9 +152,17 @@ func runSeqX(h *c06.History) (kit.Case, error) {
 			}
 		}
 		outs := make([]string, len(h.Ops))
+		ss := c06.NewSession() // one caller: an items slice may come back through the other handle
 		for i, o := range h.Ops {
+			if isRaw(o) {
+				outs[i] = ss.Exec(st, clock, o)
+				if cached {
+					o.Out = outs[i]
+				}
+				continue
+			}
 			fs.pending = faultOf(o)
-			outs[i] = c06.Exec(handles[o.H&1], clock, o)
+			outs[i] = ss.Exec(handles[o.H&1], clock, o)
 			fs.pending = ""
 			if cached {
 				o.Out = outs[i]
@@ -169,12 +182,17 @@ func runSeqX(h *c06.History) (kit.Case, error) {
 	tags := map[string]bool{"seq": true, "seqx": true, h.Backend: true}
 	twoHandles, faults := false, false
 	for i, o := range h.Ops {
-		ops[i] = fmt.Sprintf("(%s, %s, %s)", kit.Bool(o.H&1 == 1), coqFault(faultOf(o)), o.Coq())
+		f := faultOf(o)
+		if isRaw(o) {
+			f = "raw"
+			tags["raw-op-behind-the-cache"] = true
+		}
+		ops[i] = fmt.Sprintf("(%s, %s, %s)", kit.Bool(o.H&1 == 1), coqFault(f), o.Coq())
 		tags["op:"+o.Op] = true
 		if o.H&1 == 1 {
 			twoHandles = true
 		}
-		if f := faultOf(o); f != "" {
+		if f := faultOf(o); f != "" && !isRaw(o) {
 			faults = true
 			tags["fault:"+strings.SplitN(f, ":", 2)[0]] = true
 		}
